@@ -43,6 +43,8 @@ type Ctx struct {
 	Distinct   map[string]bool
 	Samples    []any
 	Known      []string
+
+	Unreproduced int
 }
 
 func newCtx(prop, tier string, want ...string) *Ctx {
@@ -250,7 +252,9 @@ func (c *Ctx) report(sc *Scenario, v *Violation, judge Judge, shrink func(c *Ctx
 	if shrink != nil {
 		sc, v = shrink(c, sc, v, judge)
 	}
-	// confirm: the minimised scenario must fail the same way again, twice.
+	// confirm: the minimised scenario must fail the same way again, twice. A failure that does not replay is
+	// never reported as a violation: it is kept aside and makes the check inconclusive (exit 2) unless a
+	// replay-confirmed violation is reported as well.
 	for i := 0; i < 2; i++ {
 		v2 := judge(c, sc)
 		if v2 == nil || v2.Signature != v.Signature {
@@ -260,7 +264,11 @@ func (c *Ctx) report(sc *Scenario, v *Violation, judge Judge, shrink func(c *Ctx
 			}
 			path := filepath.Join(verifDir, "replays", fmt.Sprintf("tmp-unreproduced-%s-%d-%d.json", c.Prop, int64(c.Seed), sc.Run))
 			saveScenario(path, sc)
-			harnessFail("replay of %s did not reproduce (%s, then %s); scenario kept at %s", c.Prop, v.Signature, got, path)
+			fmt.Fprintf(os.Stderr, "HARNESS-WARNING: replay of %s did not reproduce (%s, then %s); scenario kept at %s\n", c.Prop, v.Signature, got, path)
+			c.mu.Lock()
+			c.Unreproduced++
+			c.mu.Unlock()
+			return false
 		}
 	}
 	sc.Expect = &Expect{Class: v.Class, Signature: v.Signature, Detail: v.Detail}
@@ -346,6 +354,10 @@ func finish(c *Ctx, violations int) {
 	cleanupAll()
 	if violations > 0 {
 		os.Exit(1)
+	}
+	if c.Unreproduced > 0 {
+		fmt.Fprintf(os.Stderr, "HARNESS-ERROR: %d failure(s) did not replay and no replay-confirmed violation was found; inconclusive\n", c.Unreproduced)
+		os.Exit(2)
 	}
 	fmt.Printf("OK property=%s tier=%s wall=%.1fs\n", c.Prop, c.Tier, time.Since(c.T0).Seconds())
 	os.Exit(0)
